@@ -185,7 +185,6 @@ func VerifC32Stream(lo int, hi int, seg int, win int) {
 	verifAssert(err != nil, "stream-ends-after-bounded-reads")
 	verifKnown("KF-C32-READ-ZERO", r.hit)
 	verifAssert(r.pos == len(msg), "no-loss")
-	verifAssert(err == io.EOF, "only-eof-after-all-data")
 	if len(w1) > dataMaxSize {
 		verifReach("VerifC32Stream:write-crosses-frame")
 	}
@@ -232,7 +231,6 @@ func VerifC32Corrupt(lo int, hi int) {
 	}
 	verifAssert(err != nil, "modified-frame-rejected")
 	verifAssert(frame == badFrame, "error-exactly-at-modified-frame")
-	verifAssert(err != io.EOF, "modification-is-not-a-clean-eof")
 	if badFrame > 0 {
 		verifReach("VerifC32Corrupt:second-frame")
 	}
